@@ -58,6 +58,9 @@ CFG = {
         thorough=6000,
         fault_rates=(0.0,),  # solver faults are the business of C02/C03/C09/C10
         need=dict(decided=("C05", 5)),
+        # acute cones + corner-hugging valid posteriors: where an unsound rectangle comparison loses
+        # an isolated optimum (seeded change C05-a needed ~1 in 500 ordinary runs)
+        extra=[({"algos": ["VOGP"], "envs": ["post_adv"], "features": {"acute_hug": True}}, 260, 8000)],
         title="VOGP / eps-PAL keep eps-isolated optima; P internally non-eps-dominated",
     ),
     "C06": dict(
